@@ -487,3 +487,27 @@ def r14f(model: Model, rr: RuleResult):
         rr.ok("_advance_width: max(config.width, proportional width)")
     else:
         rr.bad(afi, afi.node, "_advance_width no longer takes the larger of the configured and the proportional width", construct="_advance_width: max(config.width, ...) missing")
+
+
+@RULES.rule("C14", "R14g", "the vertical offset uses the bitmap's own height (not the configured resolution)", floor=1)
+def r14g(model: Model, rr: RuleResult):
+    c = model.func("bitmap_tables", "BitmapMetrics.create")
+    bm = [x for x in calls_in(c) if norm(x.func) == "BitmapMetrics"]
+    if len(bm) != 1:
+        raise AnalysisError("BitmapMetrics.create: BitmapMetrics(...) not found")
+    yo = kwarg(bm[0], "y_offset")
+    if yo is None:
+        raise AnalysisError("BitmapMetrics.create: y_offset keyword not found")
+    img = c.params[2]
+    subs = [n for n in ast.walk(yo) if isinstance(n, ast.BinOp) and isinstance(n.op, ast.Sub) and norm(n.left) == "line_height"]
+    if len(subs) != 1:
+        raise AnalysisError("BitmapMetrics.create: y_offset is not of the form line_ascent - (line_height - bitmap height) / 2")
+    h = norm(subs[0].right)
+    if h == f"{img}.size[1]":
+        rr.ok("y_offset = line_ascent - (line_height - the bitmap's height) / 2")
+    elif "bitmap_resolution" in h:
+        rr.bad(c, subs[0], "the bitmap is centred vertically as if it were config.bitmap_resolution pixels tall: a PNG of another height (maximum_color --bitmaps with its own "
+               "--bitmap_resolution, bitmaps shared between configurations) is lifted or lowered by half the difference (64 px PNG, resolution 128: BearingY 83 instead of 51)",
+               construct="BitmapMetrics.create: y_offset uses config.bitmap_resolution as the bitmap height")
+    else:
+        rr.bad(c, subs[0], f"y_offset subtracts {h} from the line height, expected the bitmap's own height", construct=f"BitmapMetrics.create: y_offset uses {h}")
